@@ -12,14 +12,14 @@ def prepare_layouts(cases):
     for c in cases:
         level = c.get("level", "1.5")
         lp = dict(L.SMALL_LEADER)
-        if level == "1.1":
+        if level in ("1.1", "1.0"):
             lp["nmap"] = 0
         lp.update(c.get("leader") or {})
         images = c.get("images", (("HH", None, 3, 2),))
         nfp = c.get("nfp")
         items = [lp, dict(file="volume", nfp=(len(images) + 2) if nfp is None else nfp)]
         smp = c.get("sample") or ("C*8" if level == "1.1" else "IU2")
-        knd = c.get("kind") or ("signal" if level == "1.1" else "processed")
+        knd = c.get("kind") or ("signal" if level in ("1.1", "1.0") else "processed")
         bps = 8 if smp == "C*8" else 2
         for (_, _, n, p) in images:
             items.append(dict(file="image", kind=knd, n=n, ndata=p * bps, bps=bps))
